@@ -443,17 +443,25 @@ func isBasicNumberKind(kind reflect.Kind) bool {
 func convToBasicNumber(source interface{}, target reflect.Type) (interface{}, error) {
 	if v, ok := source.(*decimal.Big); ok {
 		f, _ := v.Float64()
+		// integer targets: truncate the decimal itself, the float64 detour rounds first
+		// (99.99999999999999999999999 would become 100, 9007199254740993 would lose its last digit)
+		i := int64(f)
+		if v.IsFinite() {
+			if t, ok := roundToInt(v, decimal.ToZero).Int64(); ok {
+				i = t
+			}
+		}
 		switch target.Kind() {
 		case reflect.Int8:
-			return int8(f), nil
+			return int8(i), nil
 		case reflect.Int16:
-			return int16(f), nil
+			return int16(i), nil
 		case reflect.Int:
-			return int(f), nil
+			return int(i), nil
 		case reflect.Int32:
-			return int32(f), nil
+			return int32(i), nil
 		case reflect.Int64:
-			return int64(f), nil
+			return i, nil
 		case reflect.Float32:
 			return float32(f), nil
 		case reflect.Float64:
